@@ -666,6 +666,11 @@ type c04Desc struct {
 	Int    []string   `json:"int_subs"`
 	Orders [][]string `json:"orders"` // per invocation: order of rt.respond, rt.next, <party>.next for INVOKE subscribers
 	Mode   []string   `json:"mode"`   // per invocation: response | error
+	// Distract: in the LAST invocation the party held to the last position first makes another Extensions API
+	// call than next - "exiterr" (/extension/exit/error: accepted, the extension stays alive and never asks for
+	// next: the scenario ends there) or "initerr" (/extension/init/error: refused at this point, then next) -
+	// which must not count as its arrival at the barrier
+	Distract string `json:"distract,omitempty"`
 }
 
 func c04Parties(ext, in []string) []string {
@@ -710,6 +715,9 @@ func genC04(tier string, seed int64) []Case {
 			os = append(os, strings.Join(o, ">"))
 		}
 		id := fmt.Sprintf("C04/e[%s]/i[%s]/%s/%s", strings.Join(d.Ext, ","), strings.Join(d.Int, ","), strings.Join(d.Mode, ""), strings.Join(os, "|"))
+		if d.Distract != "" {
+			id += "/distract=" + d.Distract
+		}
 		if seen[id] {
 			return
 		}
@@ -730,6 +738,18 @@ func genC04(tier string, seed int64) []Case {
 						continue
 					}
 					orders := c04Orders(c04Parties(ext, in))
+					// a held-back subscriber makes another call than next (last invocation of a 2-invocation case)
+					for pi, k := range c04Parties(ext, in) {
+						for di, dis := range []string{"exiterr", "initerr"} {
+							var last []string
+							for _, o := range orders {
+								if o[len(o)-1] == k+".next" && (last == nil || di == 1) {
+									last = o
+								}
+							}
+							add(c04Desc{Ext: ext, Int: in, Distract: dis, Orders: [][]string{orders[(pi*5+di*3)%len(orders)], last}, Mode: []string{modes[di], modes[(pi+di+1)%2]}})
+						}
+					}
 					if tier != "thorough" && len(orders) > 12 {
 						// sample: keep each "party last" order plus a few
 						keep := map[string][]string{}
@@ -858,6 +878,7 @@ func runC04(c *Ctx, d c04Desc) {
 	arn := "arn:aws:lambda:us-east-1:012345678912:function:c04"
 	var callerIDs []string
 	perParty := map[string][]string{}
+	distractEnd := false
 	for i, order := range d.Orders {
 		trace := fmt.Sprintf("Root=1-%08x-c04c04c04c04c04c04c04c04;Parent=%016x;Sampled=1", i+1, i+7)
 		// the property says "the caller's trace header value": whatever the caller sent,
@@ -915,6 +936,24 @@ func runC04(c *Ctx, d c04Desc) {
 			}
 			dot := strings.Index(stepName, ".")
 			party, op := stepName[:dot], stepName[dot+1:]
+			if d.Distract != "" && i == len(d.Orders)-1 && si == len(order)-1 && party != "rt" {
+				// every other party is back at next; this one makes a call that is not next
+				var r *vh.Resp
+				if d.Distract == "exiterr" {
+					r = parties[party].ExtExitError(parties[party].ID(), "Extension.C04Distraction")
+					c.Check(r.Status == 202, "distraction_answered", fmt.Sprintf("C04/exit-error-report-status/%d", r.Status), "an exit error report of a running extension was not accepted", nil)
+				} else {
+					r = parties[party].ExtInitError(parties[party].ID(), "Extension.C04Distraction")
+					c.Check(r.Status == 403, "distraction_answered", fmt.Sprintf("C04/late-init-error-report-status/%d", r.Status), "an init error report of a running extension was not refused", nil)
+				}
+				inv.Wait(150 * time.Millisecond)
+				c.Check(!inv.Done(), "non_next_call_is_no_arrival", "C04/early-completion/after-"+d.Distract+"/"+kindOf(party), fmt.Sprintf("invocation %d reported complete after %s made a %s call instead of asking for next (order %v)", i, party, d.Distract, order), nil)
+				if d.Distract == "exiterr" {
+					// the extension has declared itself failed and will never ask for next: nothing further to conduct
+					distractEnd = true
+					break
+				}
+			}
 			switch {
 			case party == "rt" && op == "respond":
 				var r *vh.Resp
@@ -933,6 +972,9 @@ func runC04(c *Ctx, d c04Desc) {
 				inflight[party] = true
 			}
 			_ = si
+		}
+		if distractEnd {
+			break
 		}
 		if !c.Check(inv.Wait(5*time.Second) && inv.Err == nil, "completes_after_all", "C04/never-completes", fmt.Sprintf("invocation %d did not complete after all parties returned to next (order %v): %s", i, order, vh.ErrName(inv.Err)), nil) {
 			c.SetSample(sampleLog(w, 150))
